@@ -92,7 +92,8 @@ class SymWorld:
     def assume(self, c):
         self.run.assumptions.append(self._b(c))
 
-    def eq(self, a, b):
+    def eq(self, a, b, margin=None):
+        """margin: the size of |a-b| from which a difference counts as a clear violation (default 1/8; see margin gating)"""
         a, b = plain(a), plain(b)
         if isinstance(a, (SC, complex)) or isinstance(b, (SC, complex)):
             a, b = SC.lift(a), SC.lift(b)
@@ -103,7 +104,7 @@ class SymWorld:
             ta, tb = tz(a), tz(b)
             g = _SBm(ta == tb)
             d = (toreal(ta) - toreal(tb)) * (toreal(ta) - toreal(tb))
-        g.margin = d >= z3.RealVal("1/64")
+        g.margin = d >= (z3.RealVal("1/64") if margin is None else z3.RealVal(str(Fraction(margin) ** 2)))
         return g
 
     def le(self, a, b): return SB(tz(plain(a)) <= tz(plain(b)))
@@ -234,7 +235,7 @@ class ConWorld:
             return False
         return abs(a - b) <= self.atol + self.rtol * (abs(a) + abs(b))
 
-    def eq(self, a, b): return self._close(a, b)
+    def eq(self, a, b, margin=None): return self._close(a, b)
     def ne(self, a, b): return not self._close(a, b)
     def le(self, a, b): return float(a) <= float(b) + self.atol + self.rtol * (abs(a) + abs(b))
     def lt(self, a, b): return float(a) < float(b) + self.atol + self.rtol * (abs(a) + abs(b))
